@@ -135,7 +135,8 @@ def subst_word(text, frm, to):
 
 class Contract:
     def __init__(self, ret='res', requires=(), ensures=(), loops=(), prologue='', external_body=False,
-                 tag=None, decreases=None, opens=(), no_unwind=False, body_subst=(), assume_spec=False, inserts=(), closures=()):
+                 tag=None, decreases=None, opens=(), no_unwind=False, body_subst=(), assume_spec=False, inserts=(), closures=(),
+                 tsubst=None, attrs=()):
         self.ret = ret
         self.requires = list(requires)
         self.ensures = list(ensures)      # strings; each becomes one tagged obligation
@@ -147,6 +148,8 @@ class Contract:
         self.body_subst = list(body_subst)  # recorded, exceptional textual rewrites (N-rules)
         self.inserts = list(inserts)        # (anchor text, ghost text): ghost text inserted before the anchor (D2)
         self.closures = list(closures)      # (closure header as written e.g. '|p|', typed header with ghost ensures, let-prefix): D2 on a closure
+        self.tsubst = dict(tsubst or {})    # D3 on a further type parameter of the fn: {'I': 'Vec<(R, Point<R>)>'} (removed from the generic list, bounds dropped, token replaced)
+        self.attrs = list(attrs)            # verifier attributes (D2), e.g. exec_allows_no_decreases_clause: termination is then NOT claimed
 
 
 def fn_header_parts(header):
@@ -363,6 +366,10 @@ def render_fn(fnitem, mode, contract, tparams=('T',), scalar='R', indent='    ')
             header = subst_word(header, tp, scalar)
             body = subst_word(body, tp, scalar)
     c = contract or Contract(ret=None)
+    for tp, ty in c.tsubst.items():
+        header = strip_T(header, (tp,), after=r'\bfn\s+\w+')
+        header = subst_word(header, tp, ty)
+        body = subst_word(body, tp, ty)
     is_decl = (body == '')
     pre, ret, where = fn_header_parts(header)
     if not is_decl:
@@ -392,6 +399,8 @@ def render_fn(fnitem, mode, contract, tparams=('T',), scalar='R', indent='    ')
     s = indent + '// @fn %s\n' % (c.tag or fnitem.name) + indent
     if c.external_body:
         s += '#[verifier::external_body]\n' + indent
+    for a in c.attrs:
+        s += '#[verifier::%s]\n' % a + indent
     s += pre.strip()
     if ret:
         if c.ret:
